@@ -1,4 +1,6 @@
 """C20 — Gantt charts and animations show the schedule that was built."""
+import random
+
 import gen
 import slices
 from framework import PropertyCheck, Scenario
@@ -28,8 +30,78 @@ class Check(PropertyCheck):
         from impl_ext import ImplViz
         return ImplViz()
 
+    def real_gif_oracle(self, seed):
+        """The real pipeline, nothing replaced: an instance with many jobs (two-digit job labels), a recorded history, PNG frames
+        rendered by matplotlib, the GIF assembled and written by imageio, then read back.  The GIF has one frame per dispatched
+        operation, and every frame file is, pixel for pixel, the chart of the first k operations drawn independently."""
+        import os
+        import shutil
+        import tempfile
+        import warnings
+        import numpy as np
+        import imageio
+        import matplotlib.pyplot as plt
+        import jsl
+        from impl import build_instance
+        from job_shop_lib.visualization import create_gantt_chart_gif, get_partial_gantt_chart_plotter
+        r = random.Random(seed)
+        J, M = r.choice([3, 9, 11, 12, 13]), 2
+        jobs = [[([m], r.randint(1, 4)) for m in r.sample(range(M), M)] for _ in range(J)]
+        inst = build_instance(jobs, name=f"real_{seed}")
+        d = jsl.Dispatcher(inst)
+        hist = jsl.HistoryObserver(d)
+        order = [j for j in range(J) for _ in range(M - 1)]
+        r.shuffle(order)
+        first = list(range(J))
+        if r.random() < 0.5:
+            r.shuffle(first)        # (otherwise: the jobs appear in the legend one after the other, the widest labels last)
+        order = first + order
+        for j in order:
+            op = inst.jobs[j][d.job_next_operation_index[j]]
+            d.dispatch(op, op.machines[0])
+        history = list(hist.history)
+        tmp = tempfile.mkdtemp(prefix="verif_realgif_")
+        res = []
+        try:
+            with warnings.catch_warnings():
+                warnings.simplefilter("ignore")
+                try:
+                    create_gantt_chart_gif(inst, gif_path=os.path.join(tmp, "x.gif"), frames_dir=os.path.join(tmp, "f"),
+                                           remove_frames=False, schedule_history=history)
+                except Exception as e:  # pylint: disable=broad-except
+                    return [("gif-failed", f"create_gantt_chart_gif raised {type(e).__name__} ({str(e)[:80]}) for a history of {len(history)} "
+                             f"operations of an instance with {J} jobs on {M} machines")]
+                frames = imageio.mimread(os.path.join(tmp, "x.gif"), memtest=False)
+                if len(frames) != len(history):
+                    res.append(("frame-count", f"the GIF has {len(frames)} frames for a history of {len(history)}"))
+                names = sorted(os.listdir(os.path.join(tmp, "f")), key=lambda n: (len(n), n))
+                if len(names) != len(history):
+                    res.append(("frame-count", f"{len(names)} frame files for a history of {len(history)}"))
+                plotter = get_partial_gantt_chart_plotter()
+                makespan = max(x.end_time for x in history)
+                for k in sorted(set([1, 2, len(history) // 2, len(history) - 1, len(history)]) - {0}):
+                    if k > len(names):
+                        continue
+                    twin = jsl.Dispatcher(inst)
+                    for x in history[:k]:
+                        twin.dispatch(x.operation, x.machine_id)
+                    fig = plotter(twin.schedule, makespan, twin.available_operations(), twin.current_time())
+                    ref = os.path.join(tmp, f"ref_{k}.png")
+                    fig.savefig(ref, bbox_inches="tight")
+                    plt.close(fig)
+                    a, b = imageio.imread(os.path.join(tmp, "f", names[k - 1])), imageio.imread(ref)
+                    if a.shape != b.shape or not np.array_equal(a, b):
+                        res.append(("frame-content", f"frame {k} of {len(history)} is not the chart of the first {k} dispatched operations "
+                                    f"(shapes {a.shape} / {b.shape})"))
+        finally:
+            shutil.rmtree(tmp, ignore_errors=True)
+        return res[:3]
+
     def generate(self, rng, n, tier):
         for i in range(n):
+            if i in ((7,) if tier == "quick" else (7, 47, 87, 127)):
+                yield Scenario(["new", f"mark realgif {rng.randint(0, 10**6)}"], {"kind": "realgif", "count": 1})
+                continue
             kind = i % 4
             if kind == 3:
                 # frame naming and load order, small and large frame counts, scrambled listing
@@ -184,6 +256,8 @@ class Check(PropertyCheck):
     # ---------------------------------------------------------------- oracle on the real objects
     def oracle(self, impl, scenario, index, line, out, ctx):
         res = []
+        if line.startswith("mark realgif"):
+            return self.real_gif_oracle(int(line.split()[2]))
         if line == "bars" and out.startswith("held-chart-changed"):
             res.append(("held-chart", "a chart the caller still held changed when the next chart was drawn: it now shows "
                         + out[len("held-chart-changed "):]))
